@@ -42,12 +42,7 @@ Theorem C07_never_wedges_refuted :
   exists st evs, wf_state st = true /\ tx_locked st = false /\ proc_free st = true
     /\ snd (run V_fixed st evs) = [ [PWriteRsp]; []; [] ]
     /\ tx_locked (run_state V_fixed st evs) = true.
-Proof.
-  exists demo_state, wedge_history.
-  exact (conj (proj1 notif_hook_then_update_wedges) (conj (proj1 (proj2 notif_hook_then_update_wedges))
-        (conj (proj1 (proj2 (proj2 notif_hook_then_update_wedges))) (conj (proj1 (proj2 (proj2 (proj2 notif_hook_then_update_wedges))))
-        (proj1 (proj2 (proj2 (proj2 (proj2 notif_hook_then_update_wedges))))))))).
-Qed.
+Proof. exact never_wedges_refuted. Qed.
 
 (** In an unlocked state the probe request of the harness (Read Request on handle 0) is answered by
     exactly one Error Response. *)
@@ -88,12 +83,12 @@ Definition C07_one_response_statement : Prop :=
 Theorem C07_one_response_raising_hook_refuted :
   exists st r hk, wf_state st = true /\ wf_request 23 r = true /\ is_request r = true
     /\ snd (server_step st r hk) = [] /\ tx_locked (fst (server_step st r hk)) = false.
-Proof. exists demo_state, (Read 4), raising_read. exact raising_hook_unanswered. Qed.
+Proof. exact raising_hook_refuted. Qed.
 
 Theorem C07_one_response_written_hook_refuted :
   exists st r hk, wf_state st = true /\ wf_request 23 r = true /\ hooks_behave hk = true
     /\ snd (server_step st r hk) = [PWriteRsp; PError 18 4 5].
-Proof. exists demo_state, (Write 4 [1]), written_authent. exact written_hook_two_pdus. Qed.
+Proof. exact written_hook_refuted. Qed.
 
 Theorem C07_one_response_unknown_opcode_refuted :
   forall st op body, snd (server_step st (UnknownOp op body) no_hooks) = [].
@@ -158,8 +153,4 @@ Example C07_nonvacuous :
   /\ inputs_ok demo_state demo_session /\ quiet_notif demo_session
   /\ nth 12 (snd (run V_fixed demo_state (map (fun x => EvReq (fst x) (snd x)) demo_session))) []
      = [PNotification 6 [2]; PReadRsp [7; 7]].
-Proof.
-  split; [exact demo_wf|]. split; [reflexivity|]. split; [reflexivity|].
-  split; [exact (proj1 demo_session_inputs)|]. split; [exact (proj2 demo_session_inputs)|].
-  rewrite demo_session_outputs. reflexivity.
-Qed.
+Proof. exact nonvacuous. Qed.
